@@ -2084,6 +2084,7 @@ class Outcome:
     assumptions: List[str] = field(default_factory=list)
     raise_msg: str = ""
     args: Any = None
+    raw: Any = None  # the decision vector as taken (before normalisation), for replay
 
     def cond_text(self):
         return " & ".join((repr(c) if v else f"not({c!r})") for c, v in self.decisions) or "true"
@@ -2136,6 +2137,28 @@ class Outcome:
         return out
 
 
+def normalise_decisions(taken):
+    """Decisions in atomic form: `not` unwrapped (truth toggled), a conjunction decided true / a disjunction decided
+    false split into its members.  What a path decided does not depend on how the condition was spelled."""
+    out = []
+
+    def add(c, v):
+        if isinstance(c, Cond) and c.op == "not" and len(c.args) == 1:
+            add(c.args[0], not v)
+        elif isinstance(c, Cond) and c.op == "and" and v:
+            for x in c.args:
+                add(x, True)
+        elif isinstance(c, Cond) and c.op == "or" and not v:
+            for x in c.args:
+                add(x, False)
+        else:
+            out.append((c, v))
+
+    for c, v in taken:
+        add(c, v)
+    return out
+
+
 def explore(repo: Repo, fn, args: list, kwargs: Optional[dict] = None, max_paths=256,
             setup: Optional[Callable[[Interp], None]] = None, fresh_args: Optional[Callable[[], tuple]] = None) -> List[Outcome]:
     """Run `fn` (a Closure/Bound/ClassRef) on symbolic args along every decision vector."""
@@ -2153,12 +2176,12 @@ def explore(repo: Repo, fn, args: list, kwargs: Optional[dict] = None, max_paths
         a, k = (args, kwargs or {}) if fresh_args is None else fresh_args()
         try:
             v = it.call(fn, list(a) if fresh_args is not None else list(it.deepcopy(list(a))), dict(k))
-            outcomes.append(Outcome(list(it.taken), value=v, assumptions=list(it.assumptions)))
+            outcomes.append(Outcome(normalise_decisions(it.taken), value=v, assumptions=list(it.assumptions), raw=[x for _, x in it.taken]))
         except NeedDecision:
             work.append(dec + [False])
             work.append(dec + [True])
         except PyRaise as e:
-            outcomes.append(Outcome(list(it.taken), raised=e.exc_type, raise_node=e.node, assumptions=list(it.assumptions), raise_msg=str(getattr(e, 'msg', '') or '')))
+            outcomes.append(Outcome(normalise_decisions(it.taken), raised=e.exc_type, raise_node=e.node, assumptions=list(it.assumptions), raise_msg=str(getattr(e, 'msg', '') or ''), raw=[x for _, x in it.taken]))
         except Undecided as e:
             outcomes.append(Outcome(list(it.taken), undecided=str(e)))
         except RecursionError:
